@@ -6,6 +6,7 @@ import (
 	"encoding/json"
 	"fmt"
 	"hash/fnv"
+	"runtime"
 	"sort"
 	"strings"
 	"time"
@@ -89,6 +90,10 @@ func (x *Exec) Threads(bodies ...func()) bool {
 	x.outcome = s.Run(bodies...)
 	for _, p := range s.Panics {
 		x.Fail("panic", "thread", "%s", p)
+	}
+	if len(s.Panics) > 0 && x.outcome == vsched.OutcomeOK {
+		x.Obsf("outcome=panic")
+		return false
 	}
 	if x.outcome != vsched.OutcomeOK {
 		x.Obsf("outcome=%s %s", x.outcome, s.StuckInfo)
@@ -181,7 +186,20 @@ type explorer struct {
 func (e *explorer) runOnce(prefix []uint8, trace bool) *Exec {
 	vdet.Reset()
 	x := &Exec{prefix: prefix, Coarse: e.job.Coarse, Horizon: e.job.Horizon, Trace: trace, TerminationPromised: e.job.Terminat}
-	e.sc.Body(x, e.job.Params)
+	func() {
+		defer func() {
+			if r := recover(); r != nil {
+				buf := make([]byte, 4096)
+				n := runtime.Stack(buf, false)
+				lines := strings.Split(string(buf[:n]), "\n")
+				if len(lines) > 30 {
+					lines = lines[:30]
+				}
+				x.Fail("panic", "native", "panic outside the scheduled threads (set-up or oracle phase): %v\n%s", r, strings.Join(lines, "\n"))
+			}
+		}()
+		e.sc.Body(x, e.job.Params)
+	}()
 	if x.sched == nil {
 		x.Fail("infra", "scenario", "scenario body never called Threads")
 		return x
